@@ -1,4 +1,5 @@
 import Ktm.Results
+import Ktm.Track
 /-! # C18 — metric bookkeeping and result conversion compute the documented aggregates
 
 Model: `Metrics.update / mean / bestValue / bestStep / history` (`MetricHistory`), values are NaN or
@@ -56,6 +57,27 @@ theorem list_objective_is_mean_of_bests (minimize : Bool) (curves : List (List I
   split at h
   · rename_i hc; cases h; exact ⟨rfl, hc.1⟩
   · cases h
+
+/-- every metric of a trial is tracked under the direction of its own name — the objective's as the user gave it (the
+components of a multi-objective included), otherwise what the name says, otherwise "min" — for every sequence of reports,
+whatever other metrics a report holds and in whatever order -/
+theorem metric_direction_is_its_own (infer : String → Option Bool) (o : Track.Obj) (rs : List (Int × List (String × FV)))
+    (n : String) (h : Track.Hist) (hm : (n, h) ∈ Track.reports infer o rs) : h.minimize = Track.dirOf infer o n :=
+  Track.wf_reports infer o rs n h hm
+
+theorem objective_direction_is_the_users (infer : String → Option Bool) (o : Track.Obj) :
+    Track.dirOf infer o o.name = o.minimize ∧
+    (∀ m d, o.name ≠ m → Track.partDir o.parts m = some d → Track.dirOf infer o m = d) ∧
+    (∀ m, o.name ≠ m → Track.partDir o.parts m = none → Track.dirOf infer o m = (infer m).getD true) :=
+  ⟨Track.dir_of_objective infer o, fun m d => Track.dir_of_component infer o m d, fun m => Track.dir_of_other infer o m⟩
+
+/-- one `update_trial` report records, for each metric, exactly the value reported for it at that step and leaves every
+other metric alone: the outcome does not depend on the order of the report's keys -/
+theorem report_is_per_metric (infer : String → Option Bool) (o : Track.Obj) (step : Int) (kvs : List (String × FV))
+    (hnd : (kvs.map (·.1)).Nodup) (t : Track.Tracker) (m : String) :
+    (m ∉ kvs.map (·.1) → Track.lookup (Track.report infer o t step kvs) m = Track.lookup t m) ∧
+    (∀ v, (m, v) ∈ kvs → Track.lookup (Track.report infer o t step kvs) m = some (Track.into infer o step m (Track.lookup t m) v)) :=
+  Track.report_one_metric infer o step kvs hnd t m
 
 /-- non-vacuity: best of means vs mean of bests differ on [[3,1],[1,3]]: mean of bests is 1 -/
 example : (listObjective true [[3, 1], [1, 3]]).isSome ∧ Results.bestValue true [3, 1] = some 1 ∧ Results.bestValue true [1, 3] = some 1 := by decide
